@@ -518,6 +518,26 @@ func run(r *mon.Run) {
 				}
 			}
 		}
+		// an output that cannot take a single byte (disk full): the tool must not claim to have signed the bundle
+		if _, serr := os.Stat("/dev/full"); serr == nil {
+			// (this bundle and, separately, a small one: output that fits a write buffer fails only when it is flushed)
+			small := filepath.Join(scratch, fmt.Sprintf("cli-small-%d.wbn", r.Shard))
+			smallSize := mon.Pick(g, []int{8, 100, 300, 3000})
+			os.WriteFile(small, bundleFile(g, smallSize, nil), 0o644)
+			for _, inp := range []struct {
+				path string
+				n    int
+			}{{in, size}, {small, smallSize}} {
+				o4, err4 := exec.Command(cli, "integrity-block", "-i", inp.path, "-o", "/dev/full", "-privateKey", keyPath).CombinedOutput()
+				if err4 == nil {
+					outcome = "cli:FULL-DISK-SUCCESS"
+					r.Violation(fmt.Sprintf("%s:devfull:%d", key, inp.n), fmt.Sprintf("sign-bundle integrity-block -o /dev/full (every write fails with ENOSPC) exited 0 for a %d-byte bundle: %s", inp.n, tailStr(string(o4), 200)), nil)
+				} else {
+					r.Eval("cli:full-disk-reported")
+				}
+			}
+			os.Remove(small)
+		}
 		for _, args := range [][]string{{"dump-id", "-privateKey", keyPath}, {"dump-id", "-publicKey", pubPath}} {
 			o, err := exec.Command(cli, args...).CombinedOutput()
 			if err != nil || !strings.Contains(string(o), "Web Bundle ID: "+wantID) {
